@@ -38,7 +38,7 @@ TECHNIQUE = ('bounded-exhaustive enumeration of TLS configurations (provider tls
 FIX = Path(__file__).resolve().parents[2] / 'fixtures' / 'certs'
 P_IP, C_IP = '10.0.0.1', '10.0.0.2'
 P_ALT, C_ALT = 'provider.example', 'consumer.example'
-URL_RE = re.compile(rb'(https?)://([A-Za-z0-9_.\-]+)(?::(\d+))?')
+URL_RE = re.compile(rb'([Hh][Tt][Tt][Pp][Ss]?)://([A-Za-z0-9_.\-]+)(?::(\d+))?')
 
 
 class RecContext(ssl.SSLContext):
@@ -175,6 +175,9 @@ class Sim:
         self.wire.connect_hook = self._on_connect
         self.wire.intercept = self._on_post
         self.posts = {'provider': 0, 'consumer': 0}
+        self.echo_problems = []
+        self.echo_count = 0
+        self.c_shared_server = None
         self.p = self.c = None
         self.stage = 'init'
 
@@ -275,6 +278,7 @@ class Sim:
             # what an application that enforces TLS does: its own server uses the server context
             cont = self.c_cont if (cfg['c_mode'] == 'enforced' or (cfg['c_mode'] == 'optional' and cfg['p_tls'])) else None
             shared = self._shared_server(C_IP, cont, 'consumer')
+        self.c_shared_server = shared
         c.start_all(shared_http_server=shared, fixed_renew_interval=10 ** 6)
         return c
 
@@ -332,6 +336,13 @@ class Sim:
                 s.get_status()
         self._stage(out, 'renew', renew)
         self._stage(out, 'report2', lambda: A.EVENT_BY_NAME['metric(N1,2)'](p))
+        if cfg['p_tls']:
+            self._stage(out, 'echo', self.echo_stage)
+        if cfg.get('restart'):
+            self._stage(out, 'consumer-stop-for-restart', lambda: c.stop_all(unsubscribe=True))
+            self._stage(out, 'consumer-restart', lambda: c.start_all(shared_http_server=self.c_shared_server,
+                                                                      fixed_renew_interval=10 ** 6))
+            self._stage(out, 'report3', lambda: A.EVENT_BY_NAME['alert-cond(off)'](p))
         if cfg['shutdown'] == 'consumer-first':
             self._stage(out, 'consumer-stop', lambda: c.stop_all(unsubscribe=True))
             self._stage(out, 'provider-stop', lambda: p.stop_all(send_subscription_end=True))
@@ -341,10 +352,56 @@ class Sim:
         self.stage = 'done'
         return out
 
+    def echo_stage(self):
+        """Requests that spell the provider's addresses with a plaintext scheme (or a foreign host): what the provider
+        advertises in its answers must not follow them."""
+        from lxml import etree
+        seen = set()
+        hosts = [P_IP, P_ALT]
+        for msg in list(self.wire.log):
+            if msg.src.name != 'consumer':
+                continue
+            tag = _first_body_tag(msg.data)
+            if tag not in ('(empty)', 'GetMetadata', 'Subscribe', 'Renew', 'GetStatus', 'Probe') or (tag, msg.path.count('/')) in seen:
+                continue
+            seen.add((tag, msg.path.count('/')))
+            for variant in ('http', 'HTTP', 'foreign-host'):
+                data = msg.data
+                for h in hosts:
+                    if variant == 'foreign-host':
+                        data = data.replace(f'https://{h}'.encode(), b'http://other.example')
+                    else:
+                        data = data.replace(f'https://{h}'.encode(), f'{variant}://{h}'.encode())
+                if data == msg.data:
+                    continue
+                headers = world.mk_headers({'Content-type': 'application/soap+xml; charset=utf-8', 'Host': f'{P_IP}:80'})
+                status, reason, body = self.p._msg_converter.do_post(headers, msg.path, (C_IP, 4711), data)
+                self.echo_count += 1
+                if isinstance(body, str):
+                    body = body.encode('utf-8')
+                try:
+                    root = etree.fromstring(body)
+                except etree.XMLSyntaxError:
+                    continue
+                for el in root.iter():
+                    if not isinstance(el.tag, str):
+                        continue
+                    ln = etree.QName(el).localname
+                    texts = []
+                    if ln in ('Address', 'XAddrs') and el.text:
+                        texts += el.text.split()
+                    if el.get('location'):
+                        texts.append(el.get('location'))
+                    for t in texts:
+                        m = URL_RE.match(t.encode())
+                        if m and m.group(1).lower() != b'https' and (m.group(2).decode() in hosts or m.group(2) == b'other.example'):
+                            self.echo_problems.append(('provider-advertises-plaintext-address-from-request',
+                                                       f'{ln}={t} in the answer to {tag} spelled with {variant}'))
+
     # -- the oracle
     def judge(self, out):
         cfg = self.cfg
-        problems = []
+        problems = list(self.echo_problems)
         p_hosts = {P_IP.encode(), P_ALT.encode()}
         c_hosts = {C_IP.encode(), C_ALT.encode()}
         check_p = cfg['p_tls']
@@ -353,7 +410,7 @@ class Sim:
         def scan(blob, where):
             for m in URL_RE.finditer(blob or b''):
                 scheme, host = m.group(1), m.group(2)
-                if scheme == b'https':
+                if scheme.lower() == b'https':
                     continue
                 if check_p and host in p_hosts:
                     problems.append(('provider-address-plaintext', f'{m.group(0).decode()} in {where}'))
@@ -468,6 +525,7 @@ def _one(acc, cfg):
     acc.outcome(f"started={out['started']} op={out['op']} err={(out['error'] or '').split(':')[0]}")
     acc.add('wire-messages', len(sim.wire.log))
     acc.add('connects', len(sim.connects))
+    acc.add('requests-with-respelled-addresses', sim.echo_count)
     seen = set()
     for kind, detail in problems:
         if kind in seen:
@@ -483,20 +541,23 @@ def _one(acc, cfg):
 
 def cfg_name(cfg):
     fa = cfg.get('fail_at')
-    return ('p={}{}{}{} c={}{}{} op={} down={}{}'.format(
+    return ('p={}{}{}{} c={}{}{} op={} down={}{}{}'.format(
         'tls' if cfg['p_tls'] else 'plain', '+shared' if cfg['p_shared'] else '+own', '+alt' if cfg['p_alt'] else '',
         '+async' if cfg['async'] else '', cfg['c_mode'], '+shared' if cfg['c_shared'] else '+own',
-        '+alt' if cfg['c_alt'] else '', cfg['op'], cfg['shutdown'], f' fail={fa[2]}:{fa[0]}#{fa[1]}' if fa else ''))
+        '+alt' if cfg['c_alt'] else '', cfg['op'], cfg['shutdown'], '+restart' if cfg.get('restart') else '', f' fail={fa[2]}:{fa[0]}#{fa[1]}' if fa else ''))
 
 
 def configs(quick):
     out = []
     ops = ['SetString'] if quick else ['SetString', 'SetValue', 'Activate']
-    for p_tls, c_mode, p_shared, c_shared, p_alt, c_alt, asy, op, down in itertools.product(
+    for p_tls, c_mode, p_shared, c_shared, p_alt, c_alt, asy, op, down, restart in itertools.product(
             (True, False), ('enforced', 'optional', 'none'), (True, False), (True, False), (False, True), (False, True),
-            (False, True), ops, ('consumer-first', 'provider-first')):
+            (False, True), ops, ('consumer-first', 'provider-first'), (False, True)):
+        if restart and (down == 'provider-first' or c_shared):
+            continue     # the restart happens before the shutdown (one order is enough); with a shared server the path
+            #              stays registered after stop_all and a second start_all is refused - not a TLS matter
         out.append({'p_tls': p_tls, 'c_mode': c_mode, 'p_shared': p_shared, 'c_shared': c_shared, 'p_alt': p_alt,
-                    'c_alt': c_alt, 'async': asy, 'op': op, 'shutdown': down, 'fail_at': None})
+                    'c_alt': c_alt, 'async': asy, 'op': op, 'shutdown': down, 'restart': restart, 'fail_at': None})
     return out
 
 
